@@ -12,33 +12,40 @@ extern "C" {
 #define VP_MAXDIM 9
 #endif
 
-enum { L_MUL, L_T, L_EYE, L_TRI, L_DIAG, L_TRIL, L_TRIU, L_TALL, L_WIDE, L_SQUARE, L_INNER1, L_3DIFF, L_REALS, L_SIGNED_ZERO, L_TALL2, L_LARGE_DIM };
+enum { L_MUL, L_T, L_EYE, L_TRI, L_DIAG, L_TRIL, L_TRIU, L_TALL, L_WIDE, L_SQUARE, L_INNER1, L_3DIFF, L_REALS, L_SIGNED_ZERO, L_TALL2, L_LARGE_DIM, L_WIDE_EXP };
 static char const *const labels[] = {"product", "transpose", "eye", "tri_ones", "diag", "triL", "triU", "rows_gt_cols", "cols_gt_rows", "square",
-                                     "inner_dimension_1", "three_pairwise_different_dims", "real_valued_contents", "signed_zero_in_contents", "rows_ge_cols_plus_2", "dimension_ge_15_up_to_140", nullptr};
+                                     "inner_dimension_1", "three_pairwise_different_dims", "real_valued_contents", "signed_zero_in_contents", "rows_ge_cols_plus_2", "dimension_ge_15_up_to_140", "wide_exponent_contents", nullptr};
 static char const *const metrics[] = {"max_product_error_over_bound", nullptr};
 static uint8_t const dict[] = {0, 1, 2, 3, 8, 9};
 static vp_info const info = {"C09", "linalg", "", labels, metrics, 256, dict, sizeof(dict)};
 extern "C" vp_info const *vp_get_info(void) { return &info; }
 
-static double const kPoison = -1.2345678901234e+300;
+#include <limits>
+typedef a_real R; // float, double or long double (A_SIZE_REAL)
+typedef long double LD;
+static R const kPoison = -(std::numeric_limits<R>::max() / 3);
+static LD const U_ = LD(std::numeric_limits<R>::epsilon()) / 2;
+// occasional wide exponents for the real-valued class, scaled so that no product of two entries leaves the normal range
+static int const WIDE = sizeof(R) == 4 ? 3 : (sizeof(R) == 8 ? 50 : 900);
+static LD const FLOOR_ = sizeof(R) == 4 ? 1e-40L : (sizeof(R) == 8 ? 1e-300L : 1e-4900L);
 
 struct Mat
 {
     unsigned r, c;
-    double *p; // exact-size block
+    R *p; // exact-size block
     Mat(unsigned r_, unsigned c_) : r(r_), c(c_)
     {
         size_t n = size_t(r) * c;
-        p = (double *)malloc(sizeof(double) * (n ? n : 1));
+        p = (R *)malloc(sizeof(R) * (n ? n : 1));
         for (size_t i = 0; i < n; ++i) { p[i] = kPoison; }
     }
     ~Mat() { free(p); }
     Mat(Mat const &) = delete;
-    double &at(unsigned i, unsigned j) { return p[size_t(i) * c + j]; }
-    double at(unsigned i, unsigned j) const { return p[size_t(i) * c + j]; }
+    R &at(unsigned i, unsigned j) { return p[size_t(i) * c + j]; }
+    R at(unsigned i, unsigned j) const { return p[size_t(i) * c + j]; }
 };
 
-static bool biteq(double a, double b) { return memcmp(&a, &b, 8) == 0; }
+static bool biteq(R a, R b) { return memcmp(&a, &b, sizeof(R) > 8 ? 10 : sizeof(R)) == 0; } // x87 long double: 10 value bytes + padding
 
 static void fill(Tape &t, Ctx &cx, Mat &m, int cls)
 {
@@ -51,36 +58,38 @@ static void fill(Tape &t, Ctx &cx, Mat &m, int cls)
             for (unsigned j = 0; j < m.c; ++j)
             {
                 int v = int((i * 31u + j * 17u + i * j * a + b) % 19u) - 9;
-                m.p[size_t(i) * m.c + j] = cls == 2 ? double(v) + double((i * 7u + j * 3u) % 8u) / 8.0 : double(v);
+                m.p[size_t(i) * m.c + j] = R(cls == 2 ? double(v) + double((i * 7u + j * 3u) % 8u) / 8.0 : double(v));
             }
         }
         cx.hash.add(a | (b << 8));
         if (cls == 2) { cx.label(L_REALS); }
         return;
     }
+    int wide = (cls == 2 && t.u8() % 4 == 0) ? WIDE : 1;
+    if (wide > 1) { cx.label(L_WIDE_EXP); }
     for (size_t i = 0; i < size_t(m.r) * m.c; ++i)
     {
-        double v;
-        if (cls == 0) { v = double(int(t.u8() % 19) - 9); }
+        R v;
+        if (cls == 0) { v = R(int(t.u8() % 19) - 9); }
         else if (cls == 1)
         {
             uint8_t b = t.u8();
             if (b < 16)
             {
-                v = (b & 1) ? -0.0 : 0.0;
+                v = (b & 1) ? R(-0.0) : R(0.0);
                 if (b & 1) { cx.label(L_SIGNED_ZERO); }
             }
-            else { v = double(int(b) - 128); }
+            else { v = R(int(b) - 128); }
         }
         else
         {
-            // real values: random mantissa, exponent in [-8, 8]
+            // real values: random mantissa, exponent in [-8, 8] (times WIDE in a quarter of the fills)
             uint32_t w = t.u32();
-            v = std::ldexp(double(int32_t(w)) / 2147483648.0, int(t.u8() % 17) - 8);
+            v = std::ldexp(R(double(int32_t(w)) / 2147483648.0), (int(t.u8() % 17) - 8) * wide);
             cx.label(L_REALS);
         }
         m.p[i] = v;
-        cx.hash.addd(v);
+        { int e = 0; LD mm = frexpl(LD(v), &e); cx.hash.addd(double(mm)); cx.hash.add(unsigned(e)); }
     }
 }
 
@@ -93,16 +102,16 @@ static void shape_labels(Ctx &cx, unsigned m, unsigned n)
     if (m != n) { cx.rep->nontrivial = true; }
 }
 
-static void expect_mat(Ctx &cx, char const *sig, char const *what, Mat const &got, std::vector<double> const &want)
+static void expect_mat(Ctx &cx, char const *sig, char const *what, Mat const &got, std::vector<R> const &want)
 {
     for (unsigned i = 0; i < got.r; ++i)
     {
         for (unsigned j = 0; j < got.c; ++j)
         {
-            double g = got.at(i, j), w = want[size_t(i) * got.c + j];
+            R g = got.at(i, j), w = want[size_t(i) * got.c + j];
             if (!biteq(g, w))
             {
-                cx.fail(sig, "%s (%ux%u): cell (%u,%u) is %.17g, expected %.17g%s", what, got.r, got.c, i, j, g, w, biteq(g, kPoison) ? " [cell never written]" : "");
+                cx.fail(sig, "%s (%ux%u): cell (%u,%u) is %.21Lg, expected %.21Lg%s", what, got.r, got.c, i, j, LD(g), LD(w), biteq(g, kPoison) ? " [cell never written]" : "");
             }
         }
     }
@@ -166,22 +175,22 @@ static void run_case(Tape &t, Ctx &cx)
                         s += x * y;
                         sa += fabsl(x * y);
                     }
-                    double g = Z.at(i, j);
+                    R g = Z.at(i, j);
                     if (cls != 2)
                     {
-                        if (!(g == double(s)))
+                        if (!(g == R(s)))
                         {
-                            cx.fail("mul:wrong", "product variant %d Z(%ux%u) inner %u: cell (%u,%u) is %.17g, exact value %.17Lg", op, m, n, k, i, j, g, s);
+                            cx.fail("mul:wrong", "product variant %d Z(%ux%u) inner %u: cell (%u,%u) is %.21Lg, exact value %.21Lg", op, m, n, k, i, j, LD(g), s);
                         }
                     }
                     else
                     {
-                        long double bound = 4.0L * (k + 1) * 1.1102230246251565e-16L * sa + 1e-300L;
+                        long double bound = (sizeof(R) > 8 ? 6.0L : 4.0L) * (k + 1) * U_ * sa + FLOOR_;
                         long double err = fabsl((long double)g - s);
                         cx.metric(0, double(err / bound));
                         if (!(err <= bound))
                         {
-                            cx.fail("mul:wrong", "product variant %d Z(%ux%u) inner %u: cell (%u,%u) is %.17g, reference %.17Lg (error %.3Lg > bound %.3Lg)", op, m, n, k, i, j, g, s, err, bound);
+                            cx.fail("mul:wrong", "product variant %d Z(%ux%u) inner %u: cell (%u,%u) is %.21Lg, reference %.21Lg (error %.3Lg > bound %.3Lg)", op, m, n, k, i, j, LD(g), s, err, bound);
                         }
                     }
                 }
@@ -193,11 +202,11 @@ static void run_case(Tape &t, Ctx &cx)
             fill(t, cx, A, cls);
             cx.log("T2 %ux%u\n", m, n);
             a_real_T2(m, n, A.p, T.p);
-            std::vector<double> want(size_t(m) * n);
+            std::vector<R> want(size_t(m) * n);
             for (unsigned i = 0; i < m; ++i) { for (unsigned j = 0; j < n; ++j) { want[size_t(j) * m + i] = A.at(i, j); } }
             expect_mat(cx, "T2:wrong", "T2", T, want);
             a_real_T2(n, m, T.p, B.p);
-            std::vector<double> orig(A.p, A.p + size_t(m) * n);
+            std::vector<R> orig(A.p, A.p + size_t(m) * n);
             expect_mat(cx, "T2:not_involution", "T2 of T2", B, orig);
             cx.label(L_T);
             shape_labels(cx, m, n);
@@ -206,11 +215,11 @@ static void run_case(Tape &t, Ctx &cx)
             // T1 in place, against T2, twice = identity
             Mat A(n, n), T(n, n);
             fill(t, cx, A, cls);
-            std::vector<double> orig(A.p, A.p + size_t(n) * n);
+            std::vector<R> orig(A.p, A.p + size_t(n) * n);
             a_real_T2(n, n, A.p, T.p);
             cx.log("T1 %ux%u\n", n, n);
             a_real_T1(n, A.p);
-            std::vector<double> want(size_t(n) * n);
+            std::vector<R> want(size_t(n) * n);
             for (unsigned i = 0; i < n; ++i) { for (unsigned j = 0; j < n; ++j) { want[size_t(j) * n + i] = orig[size_t(i) * n + j]; } }
             expect_mat(cx, "T1:wrong", "T1", A, want);
             expect_mat(cx, "T1:differs_from_T2", "T2 on the same input", T, want);
@@ -224,10 +233,10 @@ static void run_case(Tape &t, Ctx &cx)
             bool square = t.coin();
             if (square) { m = n; }
             Mat E(m, n);
-            std::vector<double> want(size_t(m) * n);
+            std::vector<R> want(size_t(m) * n);
             for (unsigned i = 0; i < m; ++i)
             {
-                for (unsigned j = 0; j < n; ++j) { want[size_t(i) * n + j] = op == 6 ? (i == j ? 1.0 : 0.0) : (j <= i ? 1.0 : 0.0); }
+                for (unsigned j = 0; j < n; ++j) { want[size_t(i) * n + j] = R(op == 6 ? (i == j ? 1 : 0) : (j <= i ? 1 : 0)); }
             }
             cx.log("%s %ux%u%s\n", op == 6 ? "eye" : "tri", m, n, square ? " (square form)" : "");
             if (square) { op == 6 ? a_real_eye1(n, E.p) : a_real_tri1(n, E.p); }
@@ -241,11 +250,11 @@ static void run_case(Tape &t, Ctx &cx)
             fill(t, cx, a, cls);
             cx.log("diag / diag1 %u\n", n);
             a_real_diag(n, a.p, A.p);
-            std::vector<double> want(size_t(n) * n, 0.0);
+            std::vector<R> want(size_t(n) * n, R(0));
             for (unsigned i = 0; i < n; ++i) { want[size_t(i) * n + i] = a.p[i]; }
             expect_mat(cx, "diag:wrong", "diag", A, want);
             a_real_diag1(n, A.p, b.p);
-            std::vector<double> wa(a.p, a.p + n);
+            std::vector<R> wa(a.p, a.p + n);
             expect_mat(cx, "diag1:wrong", "diag1", b, wa);
             cx.label(L_DIAG);
             break; }
@@ -256,7 +265,7 @@ static void run_case(Tape &t, Ctx &cx)
             fill(t, cx, A, cls);
             cx.log("diag2 %ux%u\n", m, n);
             a_real_diag2(m, n, A.p, d.p);
-            std::vector<double> want(mn);
+            std::vector<R> want(mn);
             for (unsigned i = 0; i < mn; ++i) { want[i] = A.at(i, i); }
             expect_mat(cx, "diag2:wrong", "diag2", d, want);
             cx.label(L_DIAG);
@@ -267,19 +276,19 @@ static void run_case(Tape &t, Ctx &cx)
             int kind = (op - 10) % 6;
             bool rect = kind == 2 || kind == 5;
             if (!rect) { m = n; }
-            Mat A(m, n), R(m, n);
+            Mat A(m, n), Rs(m, n);
             fill(t, cx, A, cls);
-            std::vector<double> want(size_t(m) * n);
+            std::vector<R> want(size_t(m) * n);
             bool lower = kind < 3;
             bool unit = kind == 1 || kind == 4;
             for (unsigned i = 0; i < m; ++i)
             {
                 for (unsigned j = 0; j < n; ++j)
                 {
-                    double v;
-                    if (i == j) { v = unit ? 1.0 : A.at(i, j); }
-                    else if (lower) { v = j < i ? A.at(i, j) : 0.0; }
-                    else { v = j > i ? A.at(i, j) : 0.0; }
+                    R v;
+                    if (i == j) { v = unit ? R(1) : A.at(i, j); }
+                    else if (lower) { v = j < i ? A.at(i, j) : R(0); }
+                    else { v = j > i ? A.at(i, j) : R(0); }
                     want[size_t(i) * n + j] = v;
                 }
             }
@@ -287,15 +296,15 @@ static void run_case(Tape &t, Ctx &cx)
             cx.log("%s %ux%u\n", nm[kind], m, n);
             switch (kind)
             {
-            case 0: a_real_triL(n, A.p, R.p); break;
-            case 1: a_real_triL1(n, A.p, R.p); break;
-            case 2: a_real_triL2(m, n, A.p, R.p); break;
-            case 3: a_real_triU(n, A.p, R.p); break;
-            case 4: a_real_triU1(n, A.p, R.p); break;
-            default: a_real_triU2(m, n, A.p, R.p); break;
+            case 0: a_real_triL(n, A.p, Rs.p); break;
+            case 1: a_real_triL1(n, A.p, Rs.p); break;
+            case 2: a_real_triL2(m, n, A.p, Rs.p); break;
+            case 3: a_real_triU(n, A.p, Rs.p); break;
+            case 4: a_real_triU1(n, A.p, Rs.p); break;
+            default: a_real_triU2(m, n, A.p, Rs.p); break;
             }
             static char const *const sg[] = {"triL:wrong", "triL1:wrong", "triL2:wrong", "triU:wrong", "triU1:wrong", "triU2:wrong"};
-            expect_mat(cx, sg[kind], nm[kind], R, want);
+            expect_mat(cx, sg[kind], nm[kind], Rs, want);
             cx.label(lower ? L_TRIL : L_TRIU);
             if (rect) { shape_labels(cx, m, n); }
             break; }
